@@ -106,13 +106,17 @@ def unescape_tlc(s):
 
 
 def generate(specdir, module, cfgname, overrides, mode, num, depth, seed, timeout, workers=None, tag=""):
-    """mode 'bfs': all histories of length depth; mode 'sim': num random histories."""
+    """mode 'bfs': all histories of length depth; mode 'sim': num random histories; mode 'tour': one
+    history per state / per transition of the complete state graph under the module's VIEW."""
     cfg = os.path.join(specdir, "_gen_%s_%s%s.cfg" % (module, mode, tag))
     ov = dict(overrides)
     ov["GenDepth"] = str(depth)
     write_cfg(cfg, os.path.join(specdir, cfgname), ov)
     txt = open(cfg).read()
-    txt = re.sub(r"SPECIFICATION \w+", "SPECIFICATION " + ("SimSpec" if mode == "sim" else "GenSpec"), txt)
+    txt = re.sub(r"SPECIFICATION \w+", "SPECIFICATION " + ("SimSpec" if mode == "sim" else "TourSpec" if mode == "tour" else "GenSpec"), txt)
+    if mode == "tour":
+        # transition / state tour of the complete graph: histories are printed from inside the action
+        txt = re.sub(r"INVARIANT Emit\n", "VIEW TourView\n", txt)
     open(cfg, "w").write(txt)
     if mode == "sim":
         args = ["-simulate", "num=%d" % num, "-depth", str(depth + 2), "-seed", str(seed)]
